@@ -22,14 +22,7 @@ def orc(func, covers, bounds, quick, thorough, **kw):
     return h(OP, ["harness/d2oracle/zz_verif_oracle.go"] + PROJ, func, covers, bounds, quick, thorough, **kw)
 
 C = {}
-C["C04"] = dict(harnesses=[
-    comp("c04", "VerifC04Short", ["compiled", "rejected", "unparsable"],
-         "Parse, Format, Compile on every program of length 1..N over the 16 characters aA.-><:;{}'*\\n &_ : formatted text compiles to the same projection (objects, attributes, styles, connections, boards, order)",
-         {"N": 3}, {"N": 4}),
-    comp("c04", "VerifC04Templates", ["compiled"],
-         "10 longer templates (labels, quoted and block strings, boards before/after shapes, connection references, vars) with a symbolic hole of 1..H characters over aA'\" .\\\\$#|- ; keyword case masks only while the recorded finding C04-keyword-case is not reproducing",
-         {"H": 1}, {"H": 2})],
-    stubs=[FMT], outside=["programs longer than N / holes longer than H", "imports, globs inside templates, classes", "reserved keywords in upper/mixed case (recorded finding)"])
+# C04: checks/C04.json is maintained by hand
 C["C08"] = dict(harnesses=[
     comp("c08", "VerifC08MapOrder", ["compiled"],
          "d2compiler.Compile twice on the same input with the iteration order of every Go map a symbolic choice (all permutations up to 3 entries, rotations and reversal above): every program of length 1..N over aAb.-><:;{}'* plus 7 templates exercising classes, vars, boards, globs, sql_table/class, links, near/grid",
@@ -40,14 +33,7 @@ C["C10"] = dict(harnesses=[
          "17 program pairs (attribute/label/connection re-assignment, null on object/child/attribute/connection/endpoint/ancestor, re-declaration after null, order of first appearance) that must compile to the same projection; object name of 1..NL letters over aAb with an independently case-flipped second spelling, second value of 1..NV characters over xyX1, two attributes",
          {"NL": 1, "NV": 1}, {"NL": 2, "NV": 2})],
     stubs=[FMT], outside=["longer names/values, other attributes", "programs not of the 17 shapes", "label given both as primary value and as label field (d2 gives the field precedence by design)"])
-C["C11"] = dict(harnesses=[
-    comp("c11", "VerifC11Index", ["compiled"],
-         "K connection statements, each one of 9 forms between a/A, b/B and c (4 arrow kinds, both orientations, chains): indices per (src,dst,arrows) are 0,1,2.. in declaration order, IDs pairwise distinct, declaration order kept",
-         {"K": 2}, {"K": 3}),
-    comp("c11", "VerifC11Ref", ["hit", "missing"],
-         "K statements a -> b / b -> a followed by (a -> b)[I].style.opacity with I in 0..3 and either spelling of a: exactly edge I changes, a missing index is an error",
-         {"K": 3}, {"K": 4})],
-    stubs=[FMT], outside=["more than K statements", "connections inside containers, globbed indices"])
+# C11: checks/C11.json is maintained by hand
 C["C13"] = dict(harnesses=[
     comp("c13", "VerifC13Subst", ["compiled"],
          "vars value of 1..N characters over aAn1 _-. (not spelling null) used alone, inside unquoted and double-quoted text, in a connection label, from an inner vars scope shadowing an outer one, and through a nested variable path: same projection as the program with the value written in place",
@@ -70,17 +56,16 @@ C["C15"] = dict(harnesses=[
          "base a,b,a->b plus one symbolic statement (6 kinds x names abA), two boards u,v of kind scenarios/steps/layers, u with one symbolic statement, v with b: T (thorough: symbolic): base projection equals the base compiled alone; u, v equal the compilation of the inherited text plus their own statements",
          {"S2": 0}, {"S2": 1})],
     stubs=[FMT], outside=["nested boards of nested boards", "classes/vars inheritance", "globs declared inside a step reaching later steps (recorded finding)"])
-C["C35"] = dict(harnesses=[
-    comp("c35", "VerifC35Links", ["compiled", "kept", "dropped"],
-         "link value of 1..T tokens from {_, layers.x, layers.y, layers.w, scenarios.s, layers.z, steps.x, LAYERS.x, layers.X} declared on the root, in layer x, in layer x.y or in scenario s of a fixed 5-board template: stored link == absolute path of an existing board computed by an independent reference, else dropped",
-         {"T": 2}, {"T": 3})],
-    stubs=[FMT], outside=["links inside imported files (rebasing)", "rewriting of links to output files (d2cli relink)", "board keywords in upper case inside links"])
+# C35: checks/C35.json is maintained by hand (second harness in d2cli)
 OB = "6 base diagrams with uniquely labelled elements (flat, container, parallel connections, deep nesting, endpoints existing only through a connection, chain and connection inside a container) plus a family of containers (at the root or nested in a parent, children declared on their own or only as endpoints of a connection) whose children and outside siblings are named from the first CN of {x, x 2, y, x 3}"
 C["C36"] = dict(harnesses=[
     orc("VerifC36Stable", ["edited", "refused"],
         OB + "; one edit (HIST=2: two) out of Create/Set/Delete/Rename/Move/ReconnectEdge with keys from 12 object keys and 11 connection keys and a value of 0..NV characters over xX1 .'\"$#\\n- : the text of the returned graph compiles to the same projection and is a formatter fixpoint",
-        {"BASES": 3, "NV": 1}, {"NV": 2})],
-    stubs=[FMT], outside=["import updates (UpdateImport)", "edits addressed to nested boards (C41)", "histories longer than HIST"])
+        {"BASES": 3, "NV": 1}, {"NV": 2}),
+    orc("VerifC36Imports", ["updated"],
+        "programs of 1..K statements from a menu of 10 (spread imports at file level and inside a container, imports as values at two depths and inside an array, of the path being changed, of another path and below a directory; plain statements); UpdateImport removes the path, renames it (moved, lib/moved, ../up) or renames a directory (dir/ -> lib/): the result parses, is a formatter fixpoint, holds exactly the imports a reference computes (old ones gone or renamed, others kept) and compiles against a file system where the old file is gone and the new one exists",
+        {"K": 2}, {"K": 3})],
+    stubs=[FMT], outside=["edits addressed to nested boards (C41)", "histories longer than HIST", "imports as primary values next to a map and inside substitutions"])
 C["C37"] = dict(harnesses=[
     orc("VerifC37CreateSet", ["created", "set", "refused"],
         OB + "; Create of an object or connection key / Set of a label to 1..NV characters over xX1 .'\"$#- : the created key is new and exists, only missing containers are added, the label equals the value exactly, every other element keeps ID, label, shape, parent, endpoints",
